@@ -1198,7 +1198,7 @@ package go9p
 //@   property C09 C14
 //@   nobody
 //@   trusted the reply delivered to a call is a decoded Fcall (proved separately for recv: C09); request/reply matching is not re-proved here
-//@   requires clnt != nil && tc != nil && len(tc.Pkt) >= 7 && nolocks() && clnt.tagpool != nil
+//@   requires clnt != nil && tc != nil
 //@   ensures  err == nil ==> rc != nil
 //@   ensures  errwf(err)
 //@   assigns  everything
@@ -1732,13 +1732,14 @@ package go9p
 //@   at call(ConnOps.ConnClosed) requires [once] nclosed == 0 && arg1 == conn
 //@   at call(ConnOps.ConnClosed) ghost nclosed := nclosed + 1
 //@   at call(SrvFidOps.FidDestroy) requires [valid] arg1 != nil
+//@   at lock(conn.Lock) assume poolok(conn)
 //@   ensures  implements(old(conn.Srv.ops), "ConnOps") ==> nclosed == 1
 //@   ensures  nclosed <= 1
 //@   loop 1
 //@     invariant conn != nil && heldonly(conn) && nclosed <= 1 && (implements(old(conn.Srv.ops), "ConnOps") ==> nclosed == 1) && poolok(conn)
 //@     invariant forall k int :: 0 <= k && k < len(fids) ==> fids[k] != nil
 //@   loop 2
-//@     invariant conn != nil && nolocks() && nclosed <= 1 && (implements(old(conn.Srv.ops), "ConnOps") ==> nclosed == 1) && -1 <= rangeindex
+//@     invariant conn != nil && nolocks() && nclosed <= 1 && (implements(old(conn.Srv.ops), "ConnOps") ==> nclosed == 1) && -1 <= rangeindex && rangeindex < len(fids)
 //@     invariant forall k int :: 0 <= k && k < len(fids) ==> fids[k] != nil
 
 //@ func (*Srv).Start(srv, ops) (ok)
@@ -1848,6 +1849,7 @@ package go9p
 
 //@ func (*Clnt).logFcall(clnt, fc)
 //@   property C06
+//@   nobody
 //@   trusted debug logging copies its argument; it does not modify client state
 //@   requires clnt != nil && fc != nil
 //@   assigns  fresh
